@@ -542,11 +542,25 @@ _Atomic int64_t vt_usec = 0;
 int vt_call_limit_s = 600;
 void mon_dump_log(int last);
 static const time_t vt_base = 1700000000;
-NOINST void vt_advance_us(int64_t us) { atomic_fetch_add(&vt_usec, us); }
+NOINST void vt_advance_us(int64_t us) { extern void bus_vt_tick(void); atomic_fetch_add(&vt_usec, us); bus_vt_tick(); }
 NOINST time_t __wrap_time(time_t *t) {
 	time_t v = vt_base + (time_t)(vt_usec / 1000000);
 	if (t) *t = v;
 	return v;
+}
+/* the library's monotonic clock is the virtual one as well: deadlines it computes from clock_gettime pass when its own sleeping has let
+ * that much virtual time pass (a wall-clock deadline would never expire here - a sleep costs microseconds - and would hide behaviour that
+ * depends on it). Harness code calls __real_clock_gettime. */
+static int64_t mono_base_us;     /* written once before main (no thread exists yet) */
+__attribute__((constructor)) NOINST static void mono_base_init(void) {
+	struct timespec b; __real_clock_gettime(CLOCK_MONOTONIC, &b);
+	mono_base_us = (int64_t)b.tv_sec * 1000000 + b.tv_nsec / 1000;
+}
+NOINST int __wrap_clock_gettime(int clk, struct timespec *ts) {
+	if (hx_role == ROLE_HARNESS || (clk != CLOCK_MONOTONIC && clk != CLOCK_MONOTONIC_RAW)) return __real_clock_gettime(clk, ts);
+	int64_t us = mono_base_us + vt_usec;
+	ts->tv_sec = (time_t)(us / 1000000); ts->tv_nsec = (long)(us % 1000000) * 1000;
+	return 0;
 }
 NOINST int __wrap_usleep(unsigned int us) {
 	switch (hx_role) {
